@@ -29,6 +29,8 @@ REQUIRED_CLASSES = [
     "interval_grid:entry_starts_at_s",
     "interval_random:decimal_straddler_split",
     "interval_random:straddler_followed_by_adjacent",
+    "interval_random:after_in_place_edit",
+    "interval_random:coinciding_points",
 ]
 MODES = ["stretch", "split", "no_change", "error"]
 
@@ -49,6 +51,8 @@ def classify(spec, s, mode):
         if any(e[1] == s for e in ents):
             cl.append("entry_ends_at_s")
     else:
+        if len({e[0] for e in ents}) < len(ents):
+            cl.append("coinciding_points")
         if any(e[0] == s for e in ents):
             cl.append("point_at_s")
         if any(e[0] > s for e in ents):
@@ -85,8 +89,11 @@ def run_tier_case(case):
     p = P()
     spec, s, d, mode = case["tier"], case["s"], case["d"], case["mode"]
     tier = mk_tier(spec)
+    spec = models.apply_pre(tier, spec, case.get("pre"))
     before = snap_tier(tier)
     classes = classify(spec, s, mode)
+    if case.get("pre"):
+        classes.append("after_in_place_edit")
     is_int = spec["type"] == "interval"
     what = f"insertSpace({s!r},{d!r},{mode})"
     m = _model(spec, s, d, mode)
@@ -222,9 +229,10 @@ def tier_cases(draw):
     style = draw(gen.STYLES_ARITH)
     spec = draw(st.one_of(gen.interval_tier(style=style, max_segments=7, label=gen.AB),
                           gen.interval_tier(style=style, max_segments=7),
-                          gen.point_tier(style=style)))
+                          gen.point_tier(style=style, dups=True)))
     s = draw(s_for([spec["entries"]], style, spec["minT"], spec["maxT"]))
-    return {"tier": spec, "s": s, "d": draw(durations(style)), "mode": draw(st.sampled_from(MODES))}
+    pre = draw(st.one_of(st.none(), st.none(), st.fixed_dictionaries({"delete": st.one_of(st.none(), st.integers(0, 7))})))
+    return {"tier": spec, "s": s, "d": draw(durations(style)), "mode": draw(st.sampled_from(MODES)), "pre": pre}
 
 
 @st.composite
@@ -233,6 +241,26 @@ def tg_cases(draw):
     spec = draw(gen.textgrid(style=style, max_tiers=4, label=gen.AB))
     s = draw(s_for([t["entries"] for t in spec["tiers"]], style, spec["minT"], spec["maxT"]))
     return {"tg": spec, "s": s, "d": draw(durations(style)), "mode": draw(st.sampled_from(MODES))}
+
+
+@st.composite
+def straddle_cases(draw):
+    """An insertion point strictly inside an interval that is followed by touching intervals, short
+    decimals, stretch/split and the eraseRegion inverse: the rounding-sensitive paths."""
+    d = draw(st.integers(1, 3))
+    f = lambda k: float(f"{k}e-{d}")
+    u = 10 ** d
+    s0 = draw(st.integers(0, 3 * u))
+    g = draw(st.lists(st.integers(1, 4 * u), min_size=2, max_size=2))
+    sp, e0 = s0 + g[0], s0 + g[0] + g[1]
+    ents = [[f(s0), f(e0), "x"]]
+    cur = e0
+    for lab in draw(st.lists(st.sampled_from(["y", "x", "z"]), min_size=1, max_size=3)):
+        nxt = cur + draw(st.integers(1, 2 * u))
+        ents.append([f(cur), f(nxt), lab])
+        cur = nxt
+    spec = {"type": "interval", "name": "t", "entries": ents, "minT": 0.0, "maxT": f(cur + draw(st.sampled_from([0, 0, u]))), "style": "dec"}
+    return {"tier": spec, "s": f(sp), "d": f(draw(st.integers(1, 3 * u))), "mode": draw(st.sampled_from(["stretch", "split"]))}
 
 
 CHECKS = [
@@ -244,5 +272,7 @@ CHECKS = [
           doc="random dyadic / decimal tiers, insertSpace and its inverse"),
     Check("textgrid_random", run_tg_case, strategy=lambda tier: tg_cases(), quick_n=600, thorough_n=12000,
           doc="Textgrid.insertSpace tier-wise + span + validate()"),
+    Check("straddle_decimal", run_tier_case, strategy=lambda tier: straddle_cases(), quick_n=1500, thorough_n=25000,
+          doc="insertion point strictly inside an interval with touching followers, 1-3 digit decimals, + inverse"),
 ]
 KNOWN = {}
